@@ -147,6 +147,7 @@ def split_thorough(base_id, pin, n):
         h["tiers"]={"quick":{"skip":True},"thorough":t}
         h["pins"]=dict(h.get("pins") or {}); h["pins"][pin]=k
         h["bounds"]=h.get("bounds","")+"; thorough-tier instance with the first %s pinned to %d"%(pin.split("#")[0],k)
+        h["expect_reach"]=[]  # reachability of the marks is witnessed by the unpinned quick-tier instance
         H.append(h)
     base["tiers"]["thorough"]={"skip":True}
 split_thorough("C01.server_flaps","event#0",6)
@@ -160,3 +161,14 @@ add("C07.validate_open","VH_c07_validate_open",SRV,sc+["server/c07.go"],expect_r
 add("C12.restart_timer","VH_c12_restart_timer",SRV,sc+["server/c12.go","server/c07.go"],expect_reach=["end"],bounds="real fsmHandler.established (transport failure with GR negotiated) then fsmHandler.idle on the virtual clock: peer restart time 1..2 s, local restart time 3..4 s")
 add("C01.transport","VH_c01_transport",SRV,sc+["server/c01.go","server/c07.go"],{"batches":2},{"batches":3},expect_reach=["end"],bounds="real fsmHandler.sendMessageloop (coalescing, CreateUpdateMsgFromPaths, Serialize) writing to a scripted transport: 2 (quick) / 3 queued batches of 1..2 route changes over 2 prefixes (announce with symbolic MED / withdraw), bytes parsed back with ParseBGPMessage and applied in order")
 add("C01.local_route","VH_c18_api_path",SRV,sc+["server/c18api.go"],{"params":{},"unwind":2200},{"params":{},"unwind":2200},expect_reach=["end"],fixed_clock=True,bounds="a locally injected route (BgpServer.AddPath with the management loop running; symbolic ORIGIN, MED, community, optional AS_PATH with a symbolic AS incl. the peer's own) is advertised to an established eBGP peer iff the peer's AS is not in its AS_PATH, and withdrawn when deleted (same harness as C18.api_path)")
+# C02.locrib_step thorough (4 operations): 6 instances pinned on the first source and path-id
+base=[h for h in H if h["id"]=="C02.locrib_step"][0]
+t=dict(base["tiers"]["thorough"]); t["harness_s"]=3000
+for a in range(3):
+    for b in range(2):
+        h=json.loads(json.dumps(base)); h["id"]="C02.locrib_step.s%dr%d"%(a,b)
+        h["tiers"]={"quick":{"skip":True},"thorough":t}
+        h["pins"]={"src#0":a,"rid#0":b}; h["expect_reach"]=[]
+        h["bounds"]=h.get("bounds","")+"; thorough-tier instance with the first source pinned to %d and its path-id to %d"%(a,b)
+        H.append(h)
+base["tiers"]["thorough"]={"skip":True}
